@@ -462,6 +462,26 @@ func (w *World) reachableAvoidingBlocks(fn *ssa.Function, target *ssa.BasicBlock
 
 // ---- C10-X / H / U ---------------------------------------------------------------------------
 
+// flagBranch: the single live use of a flag load is a two-way branch on the flag or on its negation; returns the
+// branch and the successors taken when the flag is true / false.
+func flagBranch(u ssa.Value) (*ssa.If, *ssa.BasicBlock, *ssa.BasicBlock, bool) {
+	refs := liveRefs(u)
+	if len(refs) != 1 {
+		return nil, nil, nil, false
+	}
+	switch x := refs[0].(type) {
+	case *ssa.If:
+		return x, x.Block().Succs[0], x.Block().Succs[1], true
+	case *ssa.UnOp:
+		if x.Op == token.NOT {
+			if iff, t, f, ok := flagBranch(x); ok {
+				return iff, f, t, true
+			}
+		}
+	}
+	return nil, nil, nil, false
+}
+
 func emptyArm(b *ssa.BasicBlock) bool {
 	for _, ins := range b.Instrs {
 		switch ins.(type) {
@@ -603,16 +623,26 @@ func ruleFlagUses(w *World, r *Report) {
 			r.Unknown(key, pos, fmt.Sprintf("the flag has %d uses; expected exactly one branch", len(refs)))
 			continue
 		}
-		iff, ok := refs[0].(*ssa.If)
+		iff, tb, fb, ok := flagBranch(u)
 		if !ok {
 			r.Unknown(key, pos, "the flag is used as data ("+strings.TrimSpace(refs[0].String())+"), not as a branch condition")
 			continue
 		}
 		if sa.writerParam(fn) == nil {
+			// a helper that only selects an enum constant for its caller (the table alignment method)
+			if res := fn.Signature.Results(); res.Len() == 1 {
+				if nt, isN := res.At(0).Type().(*types.Named); isN && isInteger(nt) && w.InModuleType(nt) {
+					_, tn, tok := w.armText(fn, tb)
+					_, fnn, fok := w.armText(fn, fb)
+					if tok && fok && tn == 0 && fnn == 0 {
+						r.OK(key+" (enum selection)", pos, "a helper that writes nothing and returns an enum constant (table alignment method: excluded by the statement)")
+						continue
+					}
+				}
+			}
 			r.Unknown(key, pos, "the flag is read outside a function that writes output")
 			continue
 		}
-		tb, fb := iff.Block().Succs[0], iff.Block().Succs[1]
 		// "conditional constant written once": the arms write nothing and only choose between two string constants
 		// that meet in a phi, which is then written
 		if xt, ht, ok := w.constantSelection(iff.Block(), tb, fb); ok {
@@ -807,14 +837,15 @@ func ruleFlagUses(w *World, r *Report) {
 			r.Unknown(key, pos, fmt.Sprintf("the flag has %d uses; expected exactly one branch", len(refs)))
 			continue
 		}
-		iff, ok := refs[0].(*ssa.If)
+		_, tbU, fbU, ok := flagBranch(u)
+		_ = tbU
 		if !ok {
 			r.Unknown(key, pos, "the flag is used as data, not as a branch condition")
 			continue
 		}
 		if rawFuncs[fn] {
 			// false arm: constants only
-			_, _, fok := w.armText(fn, iff.Block().Succs[1])
+			_, _, fok := w.armText(fn, fbU)
 			if fok {
 				r.OK(key+" (raw HTML)", pos, "selects between node bytes and the constant placeholder")
 			} else {
@@ -823,7 +854,7 @@ func ruleFlagUses(w *World, r *Report) {
 			continue
 		}
 		// URL guard: the false successor evaluates IsDangerousURL and branches on it
-		fb := iff.Block().Succs[1]
+		fb := fbU
 		guard := false
 		if fi, ok := fb.Instrs[len(fb.Instrs)-1].(*ssa.If); ok {
 			for _, a := range condAtoms(fi.Cond, true) {
@@ -836,8 +867,7 @@ func ruleFlagUses(w *World, r *Report) {
 			// the two outcomes of the guard must differ by the URL write only: the write arm W is entered from
 			// "Unsafe" and from "not dangerous", has a single successor J, and the "dangerous" edge goes straight to J
 			// (no other write, no return on the skipping arm)
-			ub := iff.Block()
-			wb := ub.Succs[0]
+			wb := tbU
 			fi := fb.Instrs[len(fb.Instrs)-1].(*ssa.If)
 			dangerousTrue, dangerousFalse := fb.Succs[0], fb.Succs[1]
 			if u, ok := fi.Cond.(*ssa.UnOp); ok && u.Op == token.NOT {
